@@ -120,6 +120,52 @@ def check(ctx, rep):
     parser_wiring(rep, prog, "T-PARSE-WIRING")
     if ctx.thorough or True:
         serde_delegation(ctx, rep)
+    if ctx.thorough or rep.inconclusive:
+        entry_text(ctx, rep, prog, g)
+
+
+def entry_text(ctx, rep, prog, g):
+    """Version::parse as a whole on representative texts (engine/entrytext.py): decides entry points that process the
+    text themselves besides calling the grammar. Runs in the thorough tier, and in the quick tier when some rule of
+    this check could not be decided."""
+    from .. import entrytext
+    rule = "T-ENTRY-TEXT"
+    maxlen = 7 if ctx.thorough else 6
+    rep.rule(rule, 0, "Version::parse on every word over 8 character classes up to length %d (two dots required beyond 5): Ok "
+                      "implies the loose reference language, the canonical language implies Ok" % maxlen)
+    try:
+        L, P, classes, reps, classes_cp, class_of = build(prog, g)
+        canon, loose = references(L, classes)
+        rows = entrytext.table(prog, g, classes, class_of, maxlen)
+    except (Inconclusive, KeyError) as e:
+        rep.inconc("%s: %s" % (rule, e))
+        return
+    bad = inc = 0
+    for word, st, detail, sig in rows:
+        rep.path((rule, sig))
+        if st == "inconclusive":
+            inc += 1
+            if inc <= 2:
+                rep.inconc("%s: %s" % (rule, detail[0]), detail[1])
+            continue
+        if st == "panic":
+            rep.fail(rule, "Version::parse|%s|panic" % rule, "Version::parse(%r) panics: %s" % (word, detail), example=word)
+            continue
+        w = [class_of[ord(ch)] for ch in word]
+        in_loose, in_canon = peg.dfa_accepts(loose, w), peg.dfa_accepts(canon, w)
+        if st == "ok" and not in_loose:
+            bad += 1
+            if bad <= 3:
+                rep.fail(rule, "Version::parse|%s|accepts a string outside the loose language" % rule,
+                         "Version::parse(%r) is Ok although the text is outside `ws* v? ws* core pre? build? ws*`" % word, example=word)
+        elif st == "err" and in_canon:
+            bad += 1
+            if bad <= 3:
+                rep.fail(rule, "Version::parse|%s|rejects a canonical string" % rule,
+                         "Version::parse(%r) fails although the text is a canonical version" % word, example=word)
+        else:
+            rep.ok(rule)
+    rep.analysed_item("Version::parse interpreted on %d representative texts (length <= %d), grammar answered by the extracted PEG" % (len(rows), maxlen))
 
 
 def entry_consumes_all(prog):
